@@ -340,7 +340,9 @@ def policy_label(st):
 def multi_entry_cases():
     """targets files with 2-3 entries: same host on different ports, different hosts on the same port, mixes; with/without -p"""
     entries = [('host.example', None), ('host.example', 2222), ('host.example', 2200), ('other.example', None), ('other.example', 2222),
-               ('192.0.2.10', None), ('192.0.2.10', 2222), ('::1', None), ('::1', 2222)]
+               ('192.0.2.10', None), ('192.0.2.10', 2222), ('::1', None), ('::1', 2222),
+               # the same service in another spelling (the default port written out): listed twice, it is audited and reported twice
+               ('host.example', 22), ('::1', 22)]
     out = []
     for n in (2, 3):
         for combo in itertools.permutations(range(len(entries)), n):
